@@ -262,6 +262,8 @@ def generate(rng, prefix="", n_funcs=None, with_main=True, rich=True):
             lines = ["var r = (%s) %% %d;" % (struct_read_expr("s", s), MOD)]
             if do_print:
                 lines.append('print!("%s ", r, "\\n");' % tag())
+            if rich and rng.random() < 0.3:
+                lines.append('print!("%s ", s, "\\n");' % tag())      # prints the structure's name
             lines.append("return: r")
             body, head = _fn(name, "s: %s" % s, "i32", lines)
             it = P.add(Item(name, "fn", body, head, ("sget", s)))
@@ -650,7 +652,11 @@ def perturb(split, rng, other=None):
     P = split.program
     k = split.k
     # same name for private items of the same kind in different modules
+    prints_struct_names = any(re.search(r'print!\("#\w+ ", s, ', it.body) for it in P.items)
     for kind, newname in (("fn", "helper"), ("const", "LIMIT"), ("table", "TABLE"), ("struct", "Node")):
+        if kind == "struct" and prints_struct_names:
+            rng.random()
+            continue    # the program prints structure names: renaming one would change its output
         if rng.random() < 0.5:
             per_mod = {}
             for it in P.items:
